@@ -4,7 +4,7 @@
    each case has its own input future f, its own wrapper (f_proxy(f, timeout=..) or f_nocancel(f)).
 
    Events (fixed record, see ObsKit; f = case id everywhere):
-     Cfg(f, a, b, c)          a = state of the input future f:
+     Cfg(f, a, b, c)          a = state of the input future f (6 = pending, then cancelled by its owner):
                                     1 resolved, 2 failed, 3 pending - resolved later by another thread,
                                     4 pending for ever, 5 pending - failed later by another thread
                               b = timeout given to f_proxy in ticks, -1 = none given
@@ -53,6 +53,9 @@ IsRet(st, e)    == e.ev = "OpRet" /\ Has(st.cfg, e.f) /\ Has(st.open, Key(e))
 IsFwdRet(st, e) == IsRet(st, e) /\ st.open[Key(e)][1] = 1
 IsNonRet(st, e) == IsRet(st, e) /\ st.open[Key(e)][1] = 2
 NoCancelCase(st, f) == Has(st.cfg, f) /\ Kind(st, f) = 2
+\* state 6: f is pending and its OWNER cancels it after D ticks (the wrapper then mirrors the cancellation, and
+\* f_nocancel(f).cancel() must STILL answer False)
+OwnerCancels(st, f) == Has(st.cfg, f) /\ FState(st, f) = 6
 
 ObsNext(st, e) ==
   CASE e.ev = "Cfg" -> [st EXCEPT !.cfg = Put(@, e.f, <<e.a, e.b, e.c>>)]
@@ -104,11 +107,12 @@ Clauses(st, e) ==
      \* "and never cancels f"
      <<"C17_NoCancelShield",
         /\ (e.ev = "CancelArrived" /\ e.s = "input" /\ NoCancelCase(st, e.f)) => FALSE
-        /\ (e.ev = "DelegateState" /\ e.s \in CancelledStates /\ NoCancelCase(st, e.f)) => FALSE>>,
+        /\ (e.ev = "DelegateState" /\ e.s \in CancelledStates /\ NoCancelCase(st, e.f)) =>
+              (OwnerCancels(st, e.f) /\ Has(st.inset, e.f))>>,
      \* "while the wrapper still mirrors f's outcome"
      <<"C17_NoCancelMirrors",
         /\ (e.ev = "Observed" /\ NoCancelCase(st, e.f)) =>
-              /\ e.s \notin CancelledStates
+              /\ (e.s \in CancelledStates => (OwnerCancels(st, e.f) /\ Has(st.inset, e.f)))
               /\ e.s = "FINISHED" => (Has(st.fout, e.f) /\ st.fout[e.f] = <<e.a, e.b>>)
         /\ e.ev = "End" => \A f \in DOMAIN st.fout : NoCancelCase(st, f) => Has(st.wout, f)>> >>
 =============================================================================
